@@ -139,11 +139,11 @@ Proof.
     destruct (IH _ _ _ H) as [m [A ->]]. exists m. cbn [bind]. split; [exact A|reflexivity].
 Qed.
 
-Theorem delete_column_inv g name g' : fx_nbr (fx g) = false -> Inv g -> llist g = [] -> delete_column g name = Ok g' -> Inv g'.
+Lemma delete_column_core g name g' : fx_nbr (fx g) = false -> InvS g -> delete_column g name = Ok g' ->
+  InvS g' /\ (S3b g -> S3b g') /\ (S5n g -> S5n g') /\ (llist g = [] -> S6 g -> S6 g').
 Proof.
-  intros Fx I Hlay H. unfold delete_column in H. destruct (cget g name) as [c|] eqn:E; [|discriminate].
+  intros Fx IS H. unfold delete_column in H. destruct (cget g name) as [c|] eqn:E; [|discriminate].
   destruct (delete_conns g (filter (col_in_conn g c) (klist g))) as [g1|] eqn:E1; cbn [bind] in H; [|discriminate].
-  destruct I as [IS [D1 D2 D3]].
   assert (X1 : forall k, In k (filter (col_in_conn g c) (klist g)) -> In k (klist g)) by (intros k Hk; apply filter_In in Hk; apply Hk).
   assert (X2 : NoDup (filter (col_in_conn g c) (klist g))) by (apply NoDup_filter; apply (dl_nodup _ _ _ (i_s1k g IS))).
   destruct (delete_conns_spec _ g g1 Fx IS X1 X2 E1) as [I1 [[C [D [L Eg1]]] K1]]. clear X1 X2.
@@ -159,8 +159,6 @@ Proof.
   rewrite Ecnb in Rb. rewrite Ecns in Rn.
   assert (Ecnbr : cnbr g1 = cnbr g) by (rewrite Eg1; reflexivity). rewrite Ecnbr in Rb.
   assert (Encol : ncol g2 = ncol g) by (rewrite Eg2, Eg1; reflexivity). rewrite Encol in Rn.
-  destruct D1 as [Qb1 Qb2].
-  destruct (removeall_ok _ _ _ _ (Qb1 c Hc) Rb) as [_ Fb].
   destruct (removeall_ok _ _ _ _ (proj1 (i_s5p g IS c Hc)) Rn) as [_ Fn].
   (* no remaining connection involves c *)
   assert (Kc : forall k, In k (klist g1) -> In k (klist g) /\ k0 g k <> c /\ k1 g k <> c).
@@ -174,10 +172,10 @@ Proof.
     unfold col_in_conn in X. apply orb_prop in X. destruct X as [X|X]; apply Pos.eqb_eq in X; congruence. }
   pose proof (dl_nodup _ _ _ (s1_c g (i_s1 g IS))) as NDc.
   assert (Lc : forall x, In x (lremove (clist g) c) <-> In x (clist g) /\ x <> c) by (intro x; apply In_lremove; exact NDc).
-  (* the object graph of g1 in terms of g's fields *)
+  pose proof (i_s1 g IS) as P1g.
   destruct I1 as [F1 P1 P1k P2 P3 P4 P5].
-  rewrite Eg3, Eg2. rewrite Eg1 in F1, P1, P1k, P2, P3, P4, P5, K1, Kc, Kc'. clear Eg3 Eg2 E2 E3 M. gs.
-  constructor; constructor.
+  clear E2 E3 M Ecnb Ecns Ecnbr Encol E1. subst g3 g2 g1. gs.
+  split; [constructor|split; [|split]].
   - destruct F1 as [A1 [A2 [A3 [A4 A5]]]]. unfold Fr in *. gs. repeat split; try assumption.
     intros x Hx. apply lremove_incl in Hx. auto.
   - destruct P1 as [Dn [Dc [Dl Dw]]]. split; [|split; [|split]]; try assumption.
@@ -197,7 +195,8 @@ Proof.
     + intros c' Hc'. apply lremove_incl in Hc'. exact (Q3 c' Hc').
   - exact P4.
   - intros c' Hc'. revert Hc'. gsu. intro Hc'. apply lremove_incl in Hc'. exact (P5 c' Hc').
-  - unfold S3b. gsu. split.
+  - intros [Qb1 Qb2]. destruct (removeall_ok _ _ _ _ (Qb1 c Hc) Rb) as [_ Fb].
+    unfold S3b. gsu. split.
     + intros d Hd. apply lremove_incl in Hd. rewrite Fb. destruct (mem d _); [apply NoDup_lremove|]; exact (Qb1 d Hd).
     + intros d Hd e. apply Lc in Hd. destruct Hd as [Hd Nd]. rewrite Fb.
       assert (J : joined (set_klist (set_kdict (set_ccon g C) D) L) d e <-> joined g d e /\ e <> c).
@@ -205,13 +204,21 @@ Proof.
         - intros [k [Hk Mk]]. destruct (Kc k Hk) as [A [Na Nb]]. split; [exists k; auto|].
           intros ->. destruct Mk as [[_ X]|[X _]]; contradiction.
         - intros [[k [Hk Mk]] Ne]. exists k. split; [|exact Mk]. apply Kc'; [exact Hk| |];
-            intros X; destruct Mk as [[X1 X2]|[X1 X2]]; congruence. }
+            intros X; ua; destruct Mk as [[X1 X2]|[X1 X2]]; congruence. }
       unfold joined in J. gsu. rewrite J. clear J.
       pose proof (Qb2 d Hd) as Qd. pose proof (Qb2 c Hc) as Qc. unfold joined in Qd, Qc. ua.
       match goal with |- context [mem ?a ?b] => destruct (mem a b) eqn:Md end.
       * rewrite (In_lremove _ _ _ (Qb1 d Hd)), (Qd e). tauto.
       * apply mem_false in Md. rewrite (Qd e). split; [|tauto]. intros X. split; [exact X|]. intros ->.
         apply Md. apply Qc. destruct X as [k [Hk Mk]]. exists k. split; [exact Hk|tauto].
-  - intros c' Hc'. revert Hc'. gsu. intro Hc'. apply lremove_incl in Hc'. exact (D2 c' Hc').
-  - apply (S6_no_layers g); auto. apply IS.
+  - intros D2 c' Hc'. revert Hc'. gsu. intro Hc'. apply lremove_incl in Hc'. exact (D2 c' Hc').
+  - intros Hlay D3. apply (S6_no_layers g); auto.
+Qed.
+
+Theorem delete_column_invS g name g' : fx_nbr (fx g) = false -> InvS g -> delete_column g name = Ok g' -> InvS g'.
+Proof. intros Fx I H. exact (proj1 (delete_column_core g name g' Fx I H)). Qed.
+Theorem delete_column_inv g name g' : fx_nbr (fx g) = false -> Inv g -> llist g = [] -> delete_column g name = Ok g' -> Inv g'.
+Proof.
+  intros Fx [IS [D1 D2 D3]] Hlay H. destruct (delete_column_core g name g' Fx IS H) as [A [B [C D]]].
+  constructor; [exact A|constructor; auto].
 Qed.
